@@ -414,6 +414,10 @@ def binop(ev, op, a, b, node, fr):
         r = x ** y
         if a.unit is not None and y.is_number:
             unit = a.unit ** y
+        if getattr(ev, "float_fold", False) and kind == "number" and not shape and x.is_Rational and y.is_Integer and y < 0 and sp.sympify(r).is_Rational:
+            # int ** negative int is a float in Python: 10 ** -4 is the DOUBLE nearest to 1/10000
+            r = round_to_double(sp.sympify(r))
+            a = a.like(a.expr, isfloat=True) if hasattr(a, "like") else a
     elif isinstance(op, ast.LShift):
         # Quantity creation / conversion  value << unit
         if a.kind == "quantity" and a.tag != "unit" and b.tag == "unit":
@@ -2280,6 +2284,8 @@ def h_float(ev, args, kwargs, fr, node):
             raise Raised("ValueError", node, f"could not convert string to float: {x.s!r}")
         if v == 0 and x.s.strip().startswith("-"):
             return Num(0, isfloat=True, tag="negzero")      # float("-0") is the negative zero: it prints with its sign
+        if getattr(ev, "float_fold", False) and sp.sympify(v).is_Rational:
+            v = round_to_double(sp.sympify(v))             # float("0.01") is the double nearest to 1/100 (correctly rounded)
         return Num(v, isfloat=True)
     ev.unsupported(f"float({x!r})", node, fr)
 
